@@ -30,7 +30,7 @@ CHECK_DEADLOCK FALSE
 """
 QUICK = [("small", dict(times="{0,1,2}", prios="{0,1}", acts="{0}", subjs="{0,1}", maxh=4, maxbody=2))]
 THOROUGH = [("h5", dict(times="{0,1,2}", prios="{0,1}", acts="{0,1}", subjs="{0,1}", maxh=5, maxbody=2)),
-            ("t4", dict(times="{0,1,2,3}", prios="{-1,0,1}", acts="{0}", subjs="{0}", maxh=4, maxbody=3))]
+            ("t4", dict(times="{0,1,2,3}", prios="{0,1,2}", acts="{0}", subjs="{0}", maxh=4, maxbody=3))]
 
 
 def run(tier, replay=None):
